@@ -134,6 +134,16 @@ def run(ctx):
             nsess = 1
         case = {"chain": chain, "header": header_mode, "sessions": [gen_members(rng) for _ in range(nsess)],
                 "tree": rng.random() < 0.25}
+        if i % 9 in (3, 7) and not arch.needs_pw(chain):
+            # histories whose header has to be rebuilt around a folder without members: a session that adds directories only
+            # (or nothing but an empty directory tree) followed by a session that adds two or more files, with and without a
+            # data session in front
+            dirs = [(nm, None) for nm in rng.sample(NAMES[:6], rng.choice([1, 2]))]
+            files = [(nm, arch.pattern_bytes(rng, rng.choice([1, 17, 100, 238]), "text")) for nm in rng.sample(NAMES[:8], rng.choice([2, 3]))]
+            front = [gen_members(rng, 1)] if i % 9 == 3 else []
+            case["sessions"] = front + [dirs, files]
+            case["tree"] = False
+            nsess = len(case["sessions"])
         # distinct names across sessions
         seen = set()
         for ms in case["sessions"]:
